@@ -253,6 +253,9 @@ pub fn read_log(spec: &Spec, b: &[u8]) -> Reading {
                     Some(None) => {
                         must_reject = must_reject.or(Some(format!("literal {w} exceeds every supported integer")));
                     }
+                    None if w.bytes().all(|b| b == b'-' || b == b'+' || b.is_ascii_digit()) => {
+                        must_reject = must_reject.or(Some(format!("{w:?} is not a number")));
+                    }
                     None => return Reading::Undecided("non-numeric word in value line".into()),
                 }
             }
